@@ -4,6 +4,7 @@ import (
 	"flag"
 	"fmt"
 	"sort"
+	"strconv"
 	"strings"
 
 	"github.com/EliCDavis/jbtf"
@@ -298,6 +299,22 @@ func (i *Instance) EncodeToAppSchema(appSchema *schema.App, encoder *jbtf.Encode
 	appSchema.Metadata = i.metadata.Data()
 }
 
+// dependencyNameLess orders dependency names case insensitively, except that
+// entries of the same array input ("Values.2", "Values.10") are ordered by
+// their index, so the array's order survives being saved and loaded again.
+func dependencyNameLess(a, b string) bool {
+	aDot := strings.LastIndex(a, ".")
+	bDot := strings.LastIndex(b, ".")
+	if aDot != -1 && bDot != -1 && strings.EqualFold(a[:aDot], b[:bDot]) {
+		aIndex, aErr := strconv.Atoi(a[aDot+1:])
+		bIndex, bErr := strconv.Atoi(b[bDot+1:])
+		if aErr == nil && bErr == nil {
+			return aIndex < bIndex
+		}
+	}
+	return strings.ToLower(a) < strings.ToLower(b)
+}
+
 func (i *Instance) buildNodeGraphInstanceSchema(node nodes.Node, encoder *jbtf.Encoder) schema.AppNodeInstance {
 
 	nodeInstance := schema.AppNodeInstance{
@@ -314,7 +331,7 @@ func (i *Instance) buildNodeGraphInstanceSchema(node nodes.Node, encoder *jbtf.E
 	}
 
 	sort.Slice(nodeInstance.Dependencies, func(i, j int) bool {
-		return strings.ToLower(nodeInstance.Dependencies[i].Name) < strings.ToLower(nodeInstance.Dependencies[j].Name)
+		return dependencyNameLess(nodeInstance.Dependencies[i].Name, nodeInstance.Dependencies[j].Name)
 	})
 
 	if param, ok := node.(CustomGraphSerialization); ok {
